@@ -109,7 +109,8 @@ def run(index: RepoIndex, rep) -> None:
               f'different objects could get the same encoding', 'default triple')
     hs = index.func(GO, 'GridObject.__hash__')
     b = hs.body()
-    rep.check(len(b) == 1 and src(b[0]) == 'return hash((self.type_index(), self.state_index, '
+    from ..view import value_text
+    rep.check(value_text(index, hs) == 'hash((self.type_index(), self.state_index, '
               'self.color))', 'C16.R1', GO, 'GridObject.__hash__', hs.node.lineno, src(b[-1]),
               'GridObject hash is not over the same (type, status, colour) triple', 'hash triple')
     # every grid object compares by that triple: no subclass brings its own equality / hash
@@ -126,7 +127,7 @@ def run(index: RepoIndex, rep) -> None:
                   f'{sc.name} inherits the triple equality')
     ti = index.func(GO, 'GridObject.type_index')
     b = ti.body()
-    rep.check(len(b) == 1 and src(b[0]) == 'return grid_object_registry.index(cls)', 'C16.R1',
+    rep.check(value_text(index, ti) == 'grid_object_registry.index(cls)', 'C16.R1',
               GO, 'GridObject.type_index', ti.node.lineno, src(b[-1]),
               'type_index is not the position of the class in the registry (stable, unique)',
               'type index from registry')
